@@ -195,7 +195,7 @@ func runScenario(rep *emit.Report, sch *crypto.Scheme, sc scenario) (string, str
 				if sc.shared {
 					cl = "C12-shared-round-bypasses-cap"
 				}
-				fail(cl, fmt.Sprintf("signer index %d holds partials in %d round caches (MaxPartialsPerNode = %d): a round cache created by another index is joined without the cap check", i, l, capN),
+				fail(cl, fmt.Sprintf("signer index %d holds partials in %d round caches (MaxPartialsPerNode = %d)", i, l, capN),
 					map[string]interface{}{"op": n, "index": i, "live": l})
 			}
 		}
@@ -203,15 +203,15 @@ func runScenario(rep *emit.Report, sch *crypto.Scheme, sc scenario) (string, str
 			if l := c.RcvdLen(k); l > maxRcvd {
 				maxRcvd = l
 			}
-			if l := c.RcvdLen(k); l > 2*capN+1 && !sc.shared {
-				fail("C12-rcvd-exceeds-bound", "len(rcvd[idx]) exceeds 2*MaxPartialsPerNode+1 without shared round caches", map[string]interface{}{"op": n, "index": k, "len": l})
+			if l := c.RcvdLen(k); l > capN {
+				fail("C12-rcvd-exceeds-bound", "len(rcvd[idx]) exceeds MaxPartialsPerNode", map[string]interface{}{"op": n, "index": k, "len": l})
 			}
 		}
 		if ob.nr > maxRounds {
 			maxRounds = ob.nr
 		}
-		if ob.nr > capN*len(signers) && !sc.shared {
-			fail("C12-rounds-exceed-bound", "number of round caches exceeds MaxPartialsPerNode x signers without shared round caches", map[string]interface{}{"op": n, "rounds": ob.nr, "signers": len(signers)})
+		if ob.nr > capN*len(signers) {
+			fail("C12-rounds-exceed-bound", "number of round caches exceeds MaxPartialsPerNode x signers", map[string]interface{}{"op": n, "rounds": ob.nr, "signers": len(signers)})
 		}
 	}
 	fr, fk := dump(c)
